@@ -65,14 +65,39 @@ func TestC05(t *testing.T) {
 			c05Case(m, v, rng, et, 1+rng.Intn(40), uint32(rng.U64())|1)
 		}
 	}
+	// plaintexts that end in zero octets (des3 pads with zeros: what is padding and what is plaintext must not
+	// be confused), that are all zeros, all 0xff
+	for _, et := range allEtypes {
+		for _, l := range []int{1, 3, 5, 7, 8, 9, 13, 16, 24} {
+			for z := 1; z <= 8 && z <= l; z++ {
+				pt := rng.Bytes(l)
+				for i := l - z; i < l; i++ {
+					pt[i] = 0
+				}
+				if l > z && pt[l-z-1] == 0 {
+					pt[l-z-1] = 1
+				}
+				c05CasePT(m, v, rng, et, pt, 3)
+			}
+			ff := make([]byte, l)
+			for i := range ff {
+				ff[i] = 0xff
+			}
+			c05CasePT(m, v, rng, et, ff, 11)
+		}
+	}
 	c05FreshMixed(v, rng)
 	v.ModelAsks = m.N
 	v.Write(t)
 }
 
 func c05Case(m *Model, v *Verdict, rng *RNG, et int32, l int, usage uint32) {
+	c05CasePT(m, v, rng, et, rng.Bytes(l), usage)
+}
+
+func c05CasePT(m *Model, v *Verdict, rng *RNG, et int32, pt []byte, usage uint32) {
 	key := randKey(rng, et)
-	pt := rng.Bytes(l)
+	l := len(pt)
 	want := "ok " + X(des3Padded(et, pt))
 	// direction 1: Go encrypts, the RFC spec decrypts
 	ct, err, pan := goEncrypt(et, key, pt, usage)
